@@ -675,6 +675,16 @@ def render_cls(d):
                                          d["family"], render_ulist(d["id_contrib"]), " ; ".join(slots))
 
 
+def render_info(d):
+    side = d.get("side")
+    return "%s | toplevel %s | with_extension %s | side %s" % (
+        render_cls(d),
+        " ; ".join("%s:%s:%s:%s" % (esc(x["name"]), render_kind(x["kind"]), "true" if x["required"] else "false",
+                                    render_default(x["default"])) for x in d.get("toplevel") or []),
+        esc(d["with_extension"]) if d.get("with_extension") else "-",
+        "-" if not side else ("MISSING" if side.get("missing") else render_cls(side)))
+
+
 def gen_inherit(run, idx):
     rng = run.rng
     regs = []
@@ -703,6 +713,10 @@ def gen_inherit(run, idx):
             xt = rng.choice([None, "property-extension", "new-sdo", "new-sco", "new-sro", "toplevel-property-extension"])
             if xt:
                 op["exttype"] = xt
+        if kind in ("object", "observable") and ver == "2.1" and rng.random() < 0.3:
+            op["extname"] = EXTDEF + new_uuid(rng)                      # registers a NameExtension on the side
+        if kind == "observable" and ver == "2.1" and rng.random() < 0.5:     # the v20 decorator has no such parameter
+            op["id_contrib"] = [p[0] for p in props[:rng.randrange(0, 3)]]
         regs.append(op)
     return {"k": "dump", "id": idx, "regs": regs}
 
@@ -716,8 +730,10 @@ def inherit_term(o, conf_range):
     slots = ["mk_slot %s %s %s %s" % (common.coq_ustr(p[0]), tr_tables.kind(dump_kind(p[1], o["ver"])),
                                      common.coq_bool(bool(p[2])), tr_tables.dflt(dump_default(p[1]))) for p in o["props"]]
     xt = "None" if not o.get("exttype") else "(Some %s)" % XTR_COQ[o["exttype"]]
-    return "show_cls (custom_cls {| b_conf_range := %s |} %s %s %s %s %s %s)" % (common.coq_bool(conf_range), CK_COQ[o["kind"]], coq_ver(o["ver"]), common.coq_ustr(o["name"]), xt,
-                                                       common.coq_list(slots), common.coq_ustr(o["cls"]))
+    return "show_info (custom_info_of {| b_conf_range := %s |} %s %s %s %s %s %s %s %s)" % (
+        common.coq_bool(conf_range), CK_COQ[o["kind"]], coq_ver(o["ver"]), common.coq_ustr(o["name"]), xt,
+        common.coq_list(slots), common.coq_ustr(o["cls"]), common.coq_list([common.coq_ustr(x) for x in o.get("id_contrib") or []]),
+        ou(o.get("extname")))
 
 
 def check_inherit(run, n_cases, model_ok):
@@ -743,7 +759,7 @@ def check_inherit(run, n_cases, model_ok):
                 d = x["cls"]
                 if d["has_own_constraints"]:
                     run.broken.append(Broken("correspondence", "custom class has constraints of its own", {"reg": o}))
-                pairs.append((o, render_cls(d), d))
+                pairs.append((o, render_info(d), d))
     # variant of the source: how the v21 CustomObject wrapper writes `confidence` (read off the probe's class)
     conf_range = False
     for o, line, d in pairs:
@@ -925,15 +941,17 @@ def check(run):
             try:
                 import translate_all
                 translate_all._tables()
-                res2 = common.build_props("Props/C19Inherit.v")
-                fa = res2["failed_at"]
-                if res2["ok"] or (fa and fa[0] in mine):
-                    run.add_build(res2, "make -C coq Props/C19.vo Props/C19Inherit.vo (coqc 8.16.1, full .vo) + Print Assumptions per theorem")
-                    run.coverage["inherit_tables"] = "built"
-                else:
-                    run.coverage["inherit_tables"] = "not built: %s" % (fa[0] if fa else res2["log_tail"][-300:])
-                    run.notes.append("Props/C19Inherit.v not built (a file of the schema family did not compile): %s"
-                                     % (res2["log_tail"][-600:]))
+                mine = mine + ("Props/C19InheritC02.v", "Proofs/C19InheritC02.v")
+                for pf in ("Props/C19Inherit.v", "Props/C19InheritC02.v"):
+                    res2 = common.build_props(pf)
+                    fa = res2["failed_at"]
+                    if res2["ok"] or (fa and fa[0] in mine):
+                        run.add_build(res2, "make -C coq Props/C19.vo Props/C19Inherit.vo Props/C19InheritC02.vo (coqc 8.16.1, "
+                                            "full .vo) + Print Assumptions per theorem")
+                        run.coverage.setdefault("inherit_tables", {})[pf] = "built"
+                    else:
+                        run.coverage.setdefault("inherit_tables", {})[pf] = "not built: %s" % (fa[0] if fa else res2["log_tail"][-300:])
+                        run.notes.append("%s not built (a file of the schema family did not compile): %s" % (pf, res2["log_tail"][-600:]))
             except Exception as e:  # noqa: BLE001 -- tr_tables belongs to the schema family; its abort is reported there
                 run.coverage["inherit_tables"] = "not built: tr_tables: %s" % e
                 run.notes.append("tr_tables aborted: %s" % e)
